@@ -25,6 +25,8 @@ func replayFile(c *core.Ctx) {
 	var f struct {
 		Key    string `json:"key"`
 		Record struct {
+			Family  string   `json:"family"`
+			CopyB   bool     `json:"disk_batches_copy"`
 			Trie    string   `json:"trie"`
 			Uni     string   `json:"universe"`
 			Keys    []string `json:"keys_hex"`
@@ -39,6 +41,10 @@ func replayFile(c *core.Ctx) {
 		return
 	}
 	r := f.Record
+	if len(r.Keys) == 0 || len(r.Vals) == 0 {
+		c.Infra("replay: %s holds no behaviour record (keys_hex / values_hex / actions); a replay run writes its own result under replays/, which can overwrite the file it was given", c.Replay)
+		return
+	}
 	u := &universe{name: r.Uni, structural: strings.HasPrefix(r.Uni, "nibbles-"), iso: strings.HasPrefix(r.Uni, "nibbles-") || strings.HasPrefix(r.Uni, "prefix30")}
 	for _, k := range r.Keys {
 		kb, _ := hex.DecodeString(k)
@@ -49,6 +55,33 @@ func replayFile(c *core.Ctx) {
 		u.vals = append(u.vals, vb)
 	}
 	u.probes = probesFor(u.keys)
+	if r.Family == "copy" || r.Family == "versions" {
+		// a behaviour of the copy / versions families: the executor derives the expectations
+		// from the actions
+		x := &famExec{family: r.Family, kind: r.Trie, uni: u, limit: r.Limit, direct: !r.Copy, copyBatch: r.CopyB,
+			tab: newRootTable(), rng: rand.New(rand.NewSource(c.Seed))}
+		done, mis := runActions(x, r.Actions)
+		c.Out().Traces, c.Out().Evaluations = 1, done
+		for _, n := range x.notes {
+			c.Violate(n.class+"/"+r.Trie, fmt.Sprintf("replay of %s: %s", c.Replay, n.text), map[string]interface{}{"replay_of": f.Key, "mismatch": n.text})
+		}
+		if mis != nil {
+			if strings.HasPrefix(f.Key, "versions/batch-key-aliasing/") && !r.CopyB {
+				y := &famExec{family: r.Family, kind: r.Trie, uni: u, limit: r.Limit, direct: !r.Copy, copyBatch: true,
+					tab: newRootTable(), rng: rand.New(rand.NewSource(c.Seed))}
+				if _, m2 := runActions(y, r.Actions); m2 == nil {
+					mis = mm("versions/batch-key-aliasing", "fails with disk batches that keep the slices they are given, not with batches that copy them: %s", mis.text)
+				}
+			}
+			c.Violate(mis.class+"/"+r.Trie, fmt.Sprintf("replay of %s: after %d of %d actions: %s", c.Replay, done, len(r.Actions), mis.text),
+				map[string]interface{}{"replay_of": f.Key, "mismatch": mis.text, "actions_executed": done})
+			return
+		}
+		if len(x.notes) == 0 {
+			fmt.Printf("replay of %s: %d actions executed, no mismatch\n", c.Replay, done)
+		}
+		return
+	}
 	in := &inst{kind: r.Trie, uni: u, limit: r.Limit, direct: !r.Copy, rng: rand.New(rand.NewSource(c.Seed)), tab: newRootTable()}
 	var mis *mismatch
 	done := 0
